@@ -180,6 +180,31 @@ func genCase(r *hx.Rand, layer string, opt genOpt, thorough bool) In {
 	}
 	hasCT, hasCE := ctPresent(ops), cePresent(ops)
 
+	// an informational response first (real server only), possibly with more header calls before the final status:
+	// the decision must wait for the final header map, status and bytes must be the final ones
+	if layer == "srv" && r.Chance(1, 10) {
+		if r.Chance(1, 2) {
+			ops = append(ops, Op{Op: "add", K: "Link", V: "</style.css>; rel=preload"})
+		}
+		ops = append(ops, Op{Op: "wh", Code: []int{103, 103, 102}[r.Intn(3)]})
+		if r.Chance(1, 3) {
+			ops = append(ops, Op{Op: "wh", Code: 103})
+		}
+		switch r.Intn(4) {
+		case 0:
+			ops = append(ops, Op{Op: "set", K: "Content-Type", V: r.Pick(ctypes)})
+		case 1: // what httputil.ReverseProxy does after relaying a 1xx: the header map is cleared and filled again
+			for _, k := range []string{"Content-Encoding", "Content-Type", "Link", "Vary"} {
+				ops = append(ops, Op{Op: "del", K: k})
+			}
+			ops = append(ops, Op{Op: "set", K: "Content-Type", V: r.Pick(ctypes)})
+		case 2:
+			ops = append(ops, Op{Op: "set", K: "Content-Encoding", V: r.Pick(encodings)})
+		}
+	}
+	if r.Chance(1, 8) { // flush before anything is written
+		ops = append(ops, Op{Op: "fl"})
+	}
 	explicit := r.Chance(3, 5)
 	code := 200
 	if explicit {
@@ -223,12 +248,18 @@ func genCase(r *hx.Rand, layer string, opt genOpt, thorough bool) In {
 		}
 	}
 	decided := explicit
-	for _, w := range writes {
+	for i, w := range writes {
 		if decided && r.Chance(1, 10) {
 			late()
 		}
+		if r.Chance(1, 10) && (i > 0 || explicit) {
+			ops = append(ops, Op{Op: "fl"})
+		}
 		ops = append(ops, w)
 		decided = true
+	}
+	if r.Chance(1, 8) {
+		ops = append(ops, Op{Op: "fl"})
 	}
 	if decided && r.Chance(1, 10) {
 		late()
@@ -311,6 +342,17 @@ func init() {
 		srv(get("gzip", "text/html", Op{Op: "set", K: "Content-Length", V: "6"}, wh(200)), "HEAD"),
 		srv(get("gzip", "text/html", Op{Op: "set", K: "Etag", V: `"x"`}, wh(304)), "GET"),
 		get("gzip", "text/html", wh(304)),
+		// Flush through whatever Flusher the handler is offered: first, between chunks, last
+		get("gzip", "text/html", Op{Op: "fl"}, w("<html>"), w("</html>")),
+		srv(get("gzip", "text/html", Op{Op: "set", K: "Content-Length", V: "13"}, Op{Op: "fl"}, w("<html>"), Op{Op: "fl"}, w("</html>"), Op{Op: "fl"}), "GET"),
+		srv(get("gzip", "text/html", Op{Op: "fl"}, wh(404), w("gone")), "GET"),
+		srv(get("br", "text/html", Op{Op: "fl"}, wh(404), w("gone")), "GET"),
+		get("identity", "text/html", Op{Op: "fl"}, w("<html>"), Op{Op: "fl"}),
+		// 1xx, then the final response
+		srv(get("gzip", "-", Op{Op: "add", K: "Link", V: "</a.css>; rel=preload"}, wh(103), Op{Op: "set", K: "Content-Type", V: "text/html"}, wh(200), w("<html>")), "GET"),
+		srv(get("gzip", "text/html", wh(103), Op{Op: "del", K: "Content-Encoding"}, Op{Op: "del", K: "Content-Type"}, Op{Op: "set", K: "Content-Type", V: "text/html"}, Op{Op: "set", K: "Content-Length", V: "6"}, wh(404), w("<html>")), "GET"),
+		srv(get("gzip", "text/html", wh(103), Op{Op: "set", K: "Content-Encoding", V: "br"}, wh(200), w("\x0b\x02\x80abc\x03")), "GET"),
+		srv(get("gzip", "text/html", wh(102), wh(103), w("<html>")), "GET"),
 		// first chunk sniffs differently from the whole body
 		srv(get("gzip", "-", w("<ht"), w("ml><body></body></html>")), "GET"),
 		srv(get("gzip", "-", w(""), w("\x89PNG\r\n\x1a\n")), "GET"),
